@@ -7,12 +7,17 @@ pub fn run_case(c: &Hist, obs: &mut Obs) -> Result<(), String> {
     run_closure(c, Dir::Complete, obs)
 }
 
+pub fn run_case_analysis(c: &Hist, obs: &mut Obs) -> Result<(), String> {
+    run_closure_analysis(c, Dir::Complete, obs)
+}
+
 pub fn property(tier: Tier) -> Property {
     Property {
         id: "C02", scale: tier.pick(5, 2),
         stages: super::c01::stages(
             tier,
             run_case,
+            run_case_analysis,
             "same generator as C01; non-trivial = the closure derives an equality between terms that were not the operands of a union, or a redundancy, or a symmetry; distinct by rendered history",
         ),
         assumptions: vec!["every equality the ground closure derives is a consequence of the asserted equations (sound for any pool size)".into()],
